@@ -1,4 +1,5 @@
 #include "world.h"
+#include <signal.h>
 #include <arpa/inet.h>
 #include <errno.h>
 #include <linux/can/raw.h>
@@ -188,6 +189,28 @@ void World::block_on(std::vector<int> wait_fds, uint64_t wake_time) {
     Node &m = cur_node();
     m.waiting = false;
     m.wait_fds.clear();
+}
+
+bool World::deliver_signals() {
+    Node &n = cur_node();
+    bool eintr = false;
+    while (n.sig_pending) {
+        int sig = __builtin_ctz(n.sig_pending);
+        n.sig_pending &= ~(1u << sig);
+        Node::SigAct a = n.sigact[sig];
+        if (a.ign) continue;
+        if (!a.handler) {  // default action of SIGALRM and its like: the process is terminated
+            count("ev.killed_by_signal");
+            log("killed-by-signal", (uint64_t)sig);
+            tasks.exit_task(128 + sig, true);
+        }
+        count("ev.signal_handler_run");
+        log("signal", (uint64_t)sig);
+        if (a.siginfo) ((void (*)(int, siginfo_t *, void *))a.handler)(sig, nullptr, nullptr); else a.handler(sig);
+        if (!a.restart) eintr = true;
+    }
+    if (eintr) count("fault.eintr");
+    return eintr;
 }
 
 void World::process_due() {
@@ -519,6 +542,52 @@ static char *net_env_answer(const char *name, uintptr_t pc, char *real) {
 char *__wrap_getenv(const char *n) { return net_env_answer(n, (uintptr_t)__builtin_return_address(0), __real_getenv(n)); }
 char *__wrap_secure_getenv(const char *n) { return net_env_answer(n, (uintptr_t)__builtin_return_address(0), __real_secure_getenv(n)); }
 
+int __real_sigaction(int, const struct sigaction *, struct sigaction *);
+int __wrap_sigaction(int sig, const struct sigaction *act, struct sigaction *old) {
+    if (!in_sim()) return __real_sigaction(sig, act, old);
+    World &w = *g_world;
+    if (sig <= 0 || sig >= 32 || sig == SIGKILL || sig == SIGSTOP) { errno = EINVAL; return -1; }
+    Node &n = w.cur_node();
+    if (old) { memset(old, 0, sizeof *old); old->sa_handler = n.sigact[sig].ign ? SIG_IGN : n.sigact[sig].handler ? n.sigact[sig].handler : SIG_DFL; }
+    if (act) {
+        Node::SigAct a;
+        a.siginfo = act->sa_flags & SA_SIGINFO;
+        void (*h)(int) = a.siginfo ? (void (*)(int))act->sa_sigaction : act->sa_handler;
+        a.ign = h == SIG_IGN;
+        a.handler = (h == SIG_IGN || h == SIG_DFL) ? nullptr : h;
+        a.restart = act->sa_flags & SA_RESTART;
+        n.sigact[sig] = a;
+        w.count("ev.sigaction");
+    }
+    return 0;
+}
+typedef void (*sim_sighandler_t)(int);
+sim_sighandler_t __real_signal(int, sim_sighandler_t);
+sim_sighandler_t __wrap_signal(int sig, sim_sighandler_t h) {
+    if (!in_sim()) return __real_signal(sig, h);
+    struct sigaction a, o;
+    memset(&a, 0, sizeof a);
+    a.sa_handler = h;
+    a.sa_flags = SA_RESTART;  // glibc's signal() has BSD semantics
+    if (__wrap_sigaction(sig, &a, &o) < 0) return SIG_ERR;
+    return o.sa_handler;
+}
+unsigned __real_alarm(unsigned);
+unsigned __wrap_alarm(unsigned sec) {
+    if (!in_sim()) return __real_alarm(sec);
+    World &w = *g_world;
+    int node = w.cur_node_id();
+    uint64_t gen = ++w.nodes[node].alarm_gen;
+    w.count("ev.alarm");
+    if (sec) w.at(w.now + (uint64_t)sec * 1000000000ULL, [&w, node, gen] {
+        Node &n = w.nodes[node];
+        if (n.alarm_gen != gen) return;
+        n.sig_pending |= 1u << SIGALRM;
+        if (n.waiting) w.tasks.wake(w.tasks.get(n.task));
+    });
+    return 0;
+}
+
 int __real_isatty(int);
 int __wrap_isatty(int fd) {
     if (!in_sim()) return __real_isatty(fd);
@@ -753,6 +822,7 @@ ssize_t __wrap_recv(int fd, void *buf, size_t len, int flags) {
     while (e->rxq.empty()) {
         if (rdl && w.now >= rdl) { w.count("ev.rcvtimeo"); w.log("recv-timeout", (uint64_t)fd); errno = EAGAIN; return -1; }
         w.block_on({fd}, rdl);
+        if (w.cur_node().sig_pending && w.deliver_signals()) { errno = EINTR; return -1; }
         e = w.fd(fd);
         if (!e) { errno = EBADF; return -1; }
     }
@@ -1025,6 +1095,7 @@ int __wrap_poll(struct pollfd *pfds, nfds_t n, int timeout) {
         std::vector<int> wf;
         for (nfds_t i = 0; i < n; i++) wf.push_back(pfds[i].fd);
         w.block_on(wf, deadline);
+        if (w.cur_node().sig_pending && w.deliver_signals()) { errno = EINTR; return -1; }
     }
 }
 
@@ -1051,7 +1122,7 @@ int __wrap_clock_nanosleep(clockid_t clk, int flags, const struct timespec *req,
         wake = w.now + t;
     }
     w.log("sleep", wake);
-    while (w.now < wake) w.block_on({-3}, wake);
+    while (w.now < wake) { w.block_on({-3}, wake); if (w.cur_node().sig_pending && w.deliver_signals()) return EINTR; }
     return 0;
 }
 
@@ -1061,7 +1132,7 @@ unsigned __wrap_sleep(unsigned s) {
     w.sched_point();
     uint64_t wake = w.now + (uint64_t)s * 1000000000ULL;
     w.log("sleep", wake);
-    while (w.now < wake) w.block_on({-3}, wake);
+    while (w.now < wake) { w.block_on({-3}, wake); if (w.cur_node().sig_pending && w.deliver_signals()) return (unsigned)((wake - w.now + 999999999ULL) / 1000000000ULL); }
     return 0;
 }
 
